@@ -498,8 +498,9 @@ theorem malformed_port_or_code_leaves_flow_unchanged (k : Kind) (σ : Flow) (top
   simp [intLeaf, mkSteps_valid, hbad]
 
 /-- **whole sessions**: after any sequence of PUTs the state is the initial state followed by the effects of exactly the
-    accepted documents, in order; the backup is the initial backup if nothing was accepted, else the earlier backup or
-    the state before the first accepted document's predecessors… i.e. `σ.backup.getD` of the state at first acceptance -/
+    accepted documents, in order; and a session in which every document is refused leaves the flow — backup included —
+    exactly as it was.  (Nothing is stated here about the backup after a MIXED session; per PUT it is given by
+    `put_all_or_nothing`: the earlier backup, else the state before the first accepted document.) -/
 theorem session_all_or_nothing (k : Kind) : ∀ (docs : List Doc) (σ : Flow),
     (runSession k σ docs).cur = σ.cur ++ sessionEffects k docs ∧
     ((∀ d ∈ docs, d.valid k = false) → runSession k σ docs = σ) := by
